@@ -49,7 +49,8 @@ def main(name, src, checks):
         out = os.path.join(ROOT, "seeded", name)
         os.makedirs(out, exist_ok=True)
         for f in ("patch.diff", "demo.py"):
-            shutil.copy(os.path.join(src, f), out)
+            if os.path.abspath(os.path.join(src, f)) != os.path.abspath(os.path.join(out, f)):
+                shutil.copy(os.path.join(src, f), out)
         meta.update(confirmation=conf, detection=det, ran=["pinned suite on a scratch copy with the patch", "demo.py with and without the patch",
                                                            "./check <id> --tier quick with VERIF_REPO=<scratch copy with the patch> (equivalent to git -C /repo apply; /repo itself is left untouched while background runs use it)"],
                     base_commit=run(["git", "-C", "/repo", "log", "--format=%h", "-1"]).stdout.strip())
